@@ -18,7 +18,7 @@ var c15Names = []string{"inbox", "outbox", "followers", "following", "liked", "l
 
 func checkC15(w *World, c *Check, tier string) {
 	c.Exhaustive = true
-	c.Explanation = "Decides the table-agreement clauses of the property: the eight collection names of the statement are CollectionPath constants; the table the package-level Split consults and the union of the two validity tables each contain all eight; Split reads that table and ValidCollectionIRI decides through Split and both validity tables (who-reads/who-calls on the SSA call graph); and, by abstract interpretation with the path fixed to each name, ofActor/ofObject/AddTo touch exactly the struct field whose jsonld term equals the name (falling back to the id only). A dropped table entry or a name mapped to the wrong field breaks the join/split and owner laws for that name on every IRI. Not decided: the inverse law on strings (trailing slashes, owner paths ending in a collection name, percent-escapes, host-OS behaviour of path/filepath), and that Of() lets an explicitly set actor collection survive (value-level)."
+	c.Explanation = "Decides the table-agreement clauses of the property: the eight collection names of the statement are CollectionPath constants; the table the package-level Split consults and the union of the two validity tables each contain all eight; Split reads that table and ValidCollectionIRI decides through Split and both validity tables (who-reads/who-calls on the SSA call graph); and, by abstract interpretation with the path fixed to each name, ofActor/ofObject/AddTo touch exactly the struct field whose jsonld term equals the name (falling back to the id only). A dropped table entry or a name mapped to the wrong field breaks the join/split and owner laws for that name on every IRI. Not decided: the inverse law on strings (trailing slashes, owner paths ending in a collection name, percent-escapes, host-OS behaviour of path/filepath), and that Of() lets an explicitly set actor collection survive (value-level). (owner-as-cut) the owner Split hands back has not been through a function that rewrites text."
 	c.RuleText = "obligations: 8 names x {constant, split table, validity tables} + route reads + 8 names x {ofActor, ofObject, AddTo} field mapping; exhaustive over the names"
 	c.Trusted = []string{"go/types constant evaluation", "go/ssa", "apcheck abstract interpreter"}
 	c.floor("C15.tables", 20)
@@ -325,6 +325,24 @@ func checkC15(w *World, c *Check, tier string) {
 					}
 				}
 			}
+		}
+	}
+
+	// ---- the owner Split hands back is the text it cut the name from: never put through a function that rewrites text ----
+	if sp := w.Method("CollectionPaths", "Split"); sp != nil {
+		nret := 0
+		for _, rb := range returnBlocks(sp) {
+			ret := rb.Instrs[len(rb.Instrs)-1].(*ssa.Return)
+			if len(ret.Results) == 0 {
+				continue
+			}
+			nret++
+			if how, at := ownerRewrittenBy(w, ret.Results[0]); how != "" {
+				c.bad("C15.route", "Split:owner-as-cut←"+how, w.InstrPos(at), fmt.Sprintf("the owner IRI Split hands back has been through %s: for the owners that function changes (percent-escapes, case, separators) the owner is not the IRI the collection IRI was built from, and IRIf(owner, name) is no longer the IRI that was split", how))
+			}
+		}
+		if nret > 0 {
+			c.ok("C15.route", "Split:owner-as-cut", w.FuncPos(sp), fmt.Sprintf("%d returns traced", nret))
 		}
 	}
 
@@ -726,4 +744,109 @@ func blockReaches(from, to *ssa.BasicBlock) bool {
 		work = append(work, b.Succs...)
 	}
 	return false
+}
+
+// ownerRewrittenBy traces a text back through conversions, slices, merges, trimming/splitting helpers and package
+// functions; it names the first function on the way that rewrites text (unescaping, escaping, case mapping, replacing,
+// cleaning), "" when there is none. (*url.URL).String ends the trace: it is the serialisation Split is written around.
+func ownerRewrittenBy(w *World, v ssa.Value) (string, ssa.Instruction) {
+	seen := map[ssa.Value]bool{}
+	var trace func(v ssa.Value, d int) (string, ssa.Instruction)
+	trace = func(v ssa.Value, d int) (string, ssa.Instruction) {
+		if v == nil || d > 12 || seen[v] {
+			return "", nil
+		}
+		seen[v] = true
+		switch x := v.(type) {
+		case *ssa.ChangeType:
+			return trace(x.X, d+1)
+		case *ssa.Convert:
+			return trace(x.X, d+1)
+		case *ssa.MakeInterface:
+			return trace(x.X, d+1)
+		case *ssa.Slice:
+			return trace(x.X, d+1)
+		case *ssa.Extract:
+			return trace(x.Tuple, d+1)
+		case *ssa.BinOp:
+			if x.Op == token.ADD {
+				if how, at := trace(x.X, d+1); how != "" {
+					return how, at
+				}
+				return trace(x.Y, d+1)
+			}
+		case *ssa.Phi:
+			for _, e := range x.Edges {
+				if how, at := trace(e, d+1); how != "" {
+					return how, at
+				}
+			}
+		case *ssa.UnOp:
+			if al, ok := x.X.(*ssa.Alloc); ok && x.Op == token.MUL {
+				for _, st := range storesTo(al) {
+					if how, at := trace(st.Val, d+1); how != "" {
+						return how, at
+					}
+				}
+			}
+		case *ssa.Call:
+			cal := x.Common().StaticCallee()
+			if cal == nil {
+				return "", nil
+			}
+			if w.InPkg(cal) {
+				for _, rb := range returnBlocks(cal) {
+					ret := rb.Instrs[len(rb.Instrs)-1].(*ssa.Return)
+					for _, r := range ret.Results {
+						if isStringish(r.Type()) {
+							if how, _ := trace(r, d+1); how != "" {
+								return funcName(cal) + " → " + how, x
+							}
+						}
+					}
+				}
+				for _, a := range x.Common().Args {
+					if isStringish(a.Type()) {
+						if how, at := trace(a, d+1); how != "" {
+							return how, at
+						}
+					}
+				}
+				return "", nil
+			}
+			if cal.Object() == nil || cal.Object().Pkg() == nil {
+				return "", nil
+			}
+			pkg, name := cal.Object().Pkg().Path(), cal.Name()
+			rewrites := false
+			switch pkg {
+			case "net/url":
+				rewrites = cal.Signature.Recv() == nil && strings.Contains(name, "scape")
+				if cal.Signature.Recv() != nil {
+					return "", nil
+				}
+			case "strings", "bytes":
+				switch name {
+				case "ToLower", "ToUpper", "ToTitle", "Title", "Replace", "ReplaceAll", "Map", "ToValidUTF8", "ToLowerSpecial", "ToUpperSpecial", "Repeat":
+					rewrites = true
+				}
+			case "path", "path/filepath":
+				rewrites = name == "Clean" || name == "ToSlash" || name == "FromSlash"
+			case "golang.org/x/text/cases", "golang.org/x/text/unicode/norm", "html", "mime":
+				rewrites = true
+			}
+			if rewrites {
+				return extName(cal), x
+			}
+			for _, a := range x.Common().Args {
+				if _, isConst := a.(*ssa.Const); !isConst && isStringish(a.Type()) {
+					if how, at := trace(a, d+1); how != "" {
+						return how, at
+					}
+				}
+			}
+		}
+		return "", nil
+	}
+	return trace(v, 0)
 }
